@@ -1,5 +1,5 @@
 import Holpy.Common.Sexp
-import Holpy.C18.Model
+import Holpy.C18.ModelRules
 import Holpy.C18.ModelLA
 /-
 Line protocol of the C18 model (one s-expression in, one out):
